@@ -40,6 +40,11 @@ type Program struct {
 	// are inlined, except calls of the functions listed here (key suffixes).
 	InlineKeep []string
 
+	// GuessedNames: locals that RestoreLocalNames paired by position only
+	// (name -> owners); RestoredNames counts all restored names.
+	GuessedNames  map[string][]string
+	RestoredNames int
+
 	refCount map[*types.Func]int
 	refDone  map[string]bool
 }
@@ -237,11 +242,11 @@ func FuncKey(fn *types.Func) string {
 			name = "interface"
 		}
 		if ptr {
-			return fmt.Sprintf("%s.(*%s).%s", pkg, name, fn.Name())
+			return fmt.Sprintf("%s.(*%s).%s", pkg, name, VarName(fn))
 		}
-		return fmt.Sprintf("%s.%s.%s", pkg, name, fn.Name())
+		return fmt.Sprintf("%s.%s.%s", pkg, name, VarName(fn))
 	}
-	return pkg + "." + fn.Name()
+	return pkg + "." + VarName(fn)
 }
 
 // Funcs returns all functions with bodies declared in non-test files of pkg.
